@@ -2464,7 +2464,9 @@ class PositiveDefiniteLowRankUpdateMatrix(
                 u_matrix.shape[1],
             ),
         )
-        m_matrix = sla.sqrtm(i_inner + l_matrix.T @ (k_matrix @ l_matrix.array))
+        m_matrix = sla.sqrtm(
+            i_inner + self._sign * (l_matrix.T @ (k_matrix @ l_matrix.array)),
+        )
         x_matrix = DenseSymmetricMatrix(
             l_matrix.inv.T @ ((m_matrix - i_inner) @ l_matrix.inv),
         )
